@@ -172,10 +172,7 @@ func VerifC04Local(v *verifrt.T) {
 // replica that merged it first (and the queued delta must not change when that replica moves
 // on): state and payload do not share memory after a merge.
 func VerifC04NoSharing(v *verifrt.T) {
-	durable := false
-	if v.Bound("durable") == 1 {
-		durable = v.Bool("durable")
-	}
+	durable := v.Bool("durable") // both backends at every tier: the durable one encodes zero-copy
 	var us [4]c04upd
 	for i := range us {
 		us[i] = c04draw(v, i, 1)
